@@ -9,3 +9,9 @@ chk("C19", "other",
     "Unbounded validity queries (z3 NRA) over the real geometry functions executed on symbolic reals: all conversion pairs are exact inverses, in-beam dty <=> lab y = 0, mask/discretisation variants agree, shift/pad formulas. No size bound: the functions are loop-free and elementwise.",
     "Real-arithmetic model (IEEE rounding outside the claim); sin/cos as constrained fresh pairs; np.round as round-half-even on reals; module np replaced by a proxy for round/ceil/abs. The iradon/reconstruction sentences of C19 are NOT covered (FFT behind a C boundary).",
     "symbolic execution of the Python source (pysym) + z3 validity queries, counterexamples replayed on the real functions", "DESIGN.md 3/C19", "pysym")
+
+chk("C06", "other",
+    "Bounded symbolic execution of the real C kernels (clang IR of src/closest.c) for 0..3 symbolic peaks with all matrix entries, g-vector components and the tolerance free reals: every path is checked by z3 against the mathematical definition (count, mean squared error, R, H, UB.H=R, result = UB^-1, unchanged iff singular) and against the Python reference calc_drlv2 executed symbolically; inverse3x3 as a unit. A bit-exact QF_FP lemma justifies the magic-number rounding.",
+    "Real-arithmetic model; products abstracted by an uninterpreted commutative function for the count equivalence; rounding abstracted to 'within 1/2 of h' and R/H/UB cut to fresh matrices in the refinement harness (over-approximations); <=3 peaks per query; tol in (0,1/2]. indexing.refine (Python LSQ) is not encoded; integer overflow needing >2^31 accumulations is outside the bound.",
+    "symbolic execution of LLVM IR (llsym) + symbolic execution of the Python reference (pysym) + z3 per-path validity queries; abstract counterexamples confirmed on the rebuilt kernel through ctypes", "DESIGN.md 3/C06", "llsym+pysym")
+del NA["C06"]
